@@ -10,6 +10,7 @@
 (*   crash     resolveVarNameConflict dereferences nil      (C19 shape)      *)
 (*   dup       two imports end with one qualifier           (C11 shape)      *)
 (*   nameDup   two variables of a method end with one name  (C12 shape)      *)
+(*   badQual   a path-derived alias is no usable identifier (C11 shape)      *)
 (*   fieldDup  two variables end with one record field name (C12 shape)      *)
 (*   nfinals   number of distinct outcomes over map-order choices (C14)      *)
 (*   finals    the possible final (path, qualifier) sets                     *)
@@ -26,7 +27,9 @@ VARIABLE l
 
 (* packages arrive with their path components as characters (last component *)
 (* first); the sanitised forms uniqueName works on are computed here         *)
-PrepPkg(p)  == [path |-> p.path, name |-> p.name, alias |-> p.alias, san |-> [i \in DOMAIN p.comps |-> SanComp(p.comps[i])]]
+PrepPkg(p)  == [path |-> p.path, name |-> p.name, alias |-> p.alias, san |-> [i \in DOMAIN p.comps |-> SanComp(p.comps[i])],
+                sanCs |-> [i \in DOMAIN p.comps |-> SanChars(p.comps[i])]]
+
 PrepPkgs(s) == [i \in DOMAIN s |-> PrepPkg(s[i])]
 
 (* populateImports: the packages a type mentions, in the order the walk      *)
@@ -66,6 +69,7 @@ Step == /\ l <= Len(Cases)
            IN PrintT("PREDICT " \o ToJson([case |-> c.case,
                     diverge |-> CanDiverge(F), dup |-> CanDuplicate(F),
                     crash |-> \E sc \in scs : sc.crashed,
+                    badQual |-> \E g \in Good(F) : \E q \in DOMAIN g.imp : BadAlias(g.imp[q]),
                     nameDup |-> \E sc \in scs : ~sc.crashed /\ HasDupSeq(sc.names),
                     late |-> \E g \in Good(F) : \E i \in DOMAIN r.acc : \E sc \in r.acc[i] :
                                ~sc.crashed /\ \E k \in DOMAIN sc.names : \E j \in DOMAIN scopes[i] : \E q \in DOMAIN scopes[i][j].pkgs :
